@@ -13,6 +13,8 @@ using verif::Rng;
 using verif::Tracked;
 
 struct KV { int key; int idx; };
+VERIF_MISLEADING_ORDER(KV, key)
+VERIF_MISLEADING_EQUALITY(KV, key)
 struct KVLess { bool operator()(const KV& a, const KV& b) const { return a.key < b.key; } };
 struct KVGreater { bool operator()(const KV& a, const KV& b) const { return a.key > b.key; } };
 struct TLess { bool operator()(const Tracked& a, const Tracked& b) const { return a.key < b.key; } };
